@@ -6,7 +6,7 @@ CONSTANTS
   BindMethods = {"GET", "POST"}
   BindVerbs = {""}
   MaxBindings = 2
-  ReqToks = {"a", "b", "e", "p25", "p2F"}
+  ReqToks = {"a", "b", "e", "p25", "p2F", "p3F"}
   ReqMaxLen = 3
   ReqVerbs = {"", "v"}
   ReqMethods = {"GET", "POST", "DELETE"}
